@@ -82,7 +82,8 @@ def write_if_changed(path: Path, text: str) -> bool:
 
 
 def coq_sources():
-    return sorted(str(p.relative_to(COQ)) for p in THEORIES.rglob("*.v"))
+    # Extract/*.v are compiled only by ocaml_build (they write .ml files)
+    return sorted(str(p.relative_to(COQ)) for p in THEORIES.rglob("*.v") if "Extract" not in p.parts)
 
 
 def coq_prepare():
@@ -409,11 +410,25 @@ def copt(x) -> str:
 # Known findings, replays, evidence
 
 
-def load_known_findings():
+def load_known_findings(prop_id=None):
+    """Known findings: the committed file known_findings.json (assembled by
+    tools/build_manifest.py from known_findings.d/*.json).  Never written by a check."""
+    out = {"findings": [], "fixed": []}
     p = VERIF / "known_findings.json"
-    if not p.exists():
-        return {"findings": [], "fixed": []}
-    return json.loads(p.read_text())
+    srcs = [p] if p.exists() else []
+    srcs += sorted((VERIF / "known_findings.d").glob("*.json"))
+    seen = set()
+    for s in srcs:
+        d = json.loads(s.read_text())
+        for k in ("findings", "fixed"):
+            for e in d.get(k, []):
+                key = json.dumps(e, sort_keys=True)
+                if key in seen:
+                    continue
+                seen.add(key)
+                if prop_id is None or e.get("property") == prop_id:
+                    out[k].append(e)
+    return out
 
 
 def write_replay(prop_id: str, payload: dict) -> Path:
@@ -513,3 +528,52 @@ def run_impl_script(script: str, payload, timeout=900, extra_env=None):
         if line.startswith("@@JSON "):
             return json.loads(line[7:])
     raise RuntimeError(f"impl script {script} produced no result (rc={rc}):\n{out[-3000:]}")
+
+
+# ----------------------------------------------------------------------------
+# Running the model extracted to OCaml (for volume)
+
+
+def ocaml_build(name: str, extract_rel: str, driver_ml: str, timeout=900):
+    """Build an OCaml executable from an extraction file.
+
+    extract_rel : e.g. "theories/Extract/ExtractC05.v"; it must contain
+                  `Extraction "<name>.ml" f g ...` (a bare file name: coqc is
+                  run with cwd = coq/extracted/<name>/ so the .ml lands there)
+                  and use `Require Import ExtrOcamlBasic` only.
+    driver_ml   : path (relative to /verif/ocaml/) of the hand-written driver,
+                  which does `open <Name>` and reads stdin / writes stdout.
+    Returns the path of the executable.  Dependencies of the extraction file
+    must already be built (call prove()/coq_make first)."""
+    out = COQ / "extracted" / name
+    out.mkdir(parents=True, exist_ok=True)
+    rc, log = sh(
+        ["coqc", "-q", "-Q", str(THEORIES), "PV", "-w", "-notation-overridden,-extraction", str(COQ / extract_rel)],
+        cwd=out,
+        timeout=timeout,
+    )
+    if rc != 0:
+        raise RuntimeError(f"extraction {extract_rel} failed:\n{log[-2000:]}")
+    drv = VERIF / "ocaml" / driver_ml
+    (out / "driver.ml").write_text(drv.read_text())
+    mls = [p.name for p in out.glob("*.ml") if p.name != "driver.ml"]
+    mlis = [p.name for p in out.glob("*.mli")]
+    rc, log = sh(
+        ["ocamlfind", "ocamlopt", "-inline", "50", "-w", "-a", *sorted(mlis), *sorted(mls), "driver.ml", "-o", "model"],
+        cwd=out,
+        timeout=timeout,
+    )
+    if rc != 0:
+        raise RuntimeError(f"ocaml build for {name} failed:\n{log[-2000:]}")
+    return out / "model"
+
+
+def ocaml_run(exe, lines, timeout=900):
+    """Feed lines to the extracted model, get one output line per input line."""
+    rc, out = sh([str(exe)], input="\n".join(lines) + "\n", timeout=timeout)
+    if rc != 0:
+        raise RuntimeError(f"model run failed rc={rc}:\n{out[-2000:]}")
+    res = out.splitlines()
+    if len(res) != len(lines):
+        raise RuntimeError(f"model printed {len(res)} lines for {len(lines)} inputs\n{out[:500]}")
+    return res
